@@ -6,6 +6,7 @@ package expand
 import (
 	"fmt"
 	"iter"
+	"math"
 	"slices"
 	"strconv"
 	"strings"
@@ -103,6 +104,9 @@ func bracesSeqRec(word *syntax.Word, yield func(*syntax.Word) bool) bool {
 				if n < 0 {
 					n = -n // only the absolute value of the step matters
 				}
+				if n < 0 {
+					n = math.MaxInt64 // -MinInt64 overflows; use the largest step instead
+				}
 				if n != 0 {
 					incr = n
 				}
@@ -110,7 +114,7 @@ func bracesSeqRec(word *syntax.Word, yield func(*syntax.Word) bool) bool {
 			if !upward {
 				incr = -incr
 			}
-			for n := from; (upward && n <= to) || (!upward && n >= to); n += incr {
+			for n := from; (upward && n <= to) || (!upward && n >= to); {
 				next := *word
 				lit := &syntax.Lit{}
 				switch {
@@ -125,6 +129,10 @@ func bracesSeqRec(word *syntax.Word, yield func(*syntax.Word) bool) bool {
 				if !expand(&next) {
 					return false
 				}
+				if (incr > 0 && n > math.MaxInt64-incr) || (incr < 0 && n < math.MinInt64-incr) {
+					break // the next value would overflow int64, so it is past the end
+				}
+				n += incr
 			}
 			return true
 		}
